@@ -27,7 +27,7 @@ REQUIRE = {'chain_dfxp': 50, 'chain_sami': 50, 'chain_dfxp>sami': 30, 'chain_sam
            'reader_captions_balance_checked': 200, 'chars_compared': 5000, 'spans_across_break': 50,
            'adjacent_spans': 50, 'empty_spans': 20, 'italic_chars': 500, 'bold_chars': 200, 'underline_chars': 200, 'positioned_captions': 30, 'suite_captions_balance_checked': 300,
            'rollup_streams_with_italics_read': 20, 'dfxp_documents_round_tripped': 20,
-           'webvtt_sets_with_class_styled_spans': 20, 'dfxp_sets_with_class_styled_spans': 20, 'dfxp_documents_with_attribute_spellings': 20,
+           'webvtt_sets_with_class_styled_spans': 20, 'round_trip_sets_with_class_styled_spans': 20, 'dfxp_documents_with_attribute_spellings': 20,
            'sami_documents_with_attribute_spellings': 20}
 
 KINDS = [{'italics': True}, {'italics': True}, {'bold': True}, {'underline': True}, {'italics': True, 'bold': True},
@@ -223,8 +223,8 @@ def cases(ctx):
                     elif opened:
                         nd[2] = opened.pop()
             feats.add('class-styled')
-        elif chain == 'dfxp' and rng.random() < 0.3:
-            # DFXP to DFXP: spans that name a style of the set (directly: how a style that itself refers to another
+        elif chain != 'webvtt' and rng.random() < 0.3:
+            # DFXP / SAMI round trips: spans that name a style of the set (directly: how a style that itself refers to another
             # one comes out depends on the order the styles are written in, and is not judged); the set also has
             # styles that refer to others
             styles = {k: dict(v) for k, v in CLASS_STYLES.items()}
@@ -360,7 +360,7 @@ def check(case, ctx):
     for f in case['features']:
         ctx.count({'across-break': 'spans_across_break', 'adjacent': 'adjacent_spans', 'empty': 'empty_spans',
                    'positioned': 'positioned_captions', 'class-styled': 'webvtt_sets_with_class_styled_spans',
-                   'class-styled-dfxp': 'dfxp_sets_with_class_styled_spans'}[f])
+                   'class-styled-dfxp': 'round_trip_sets_with_class_styled_spans'}[f])
     cs = dump.mk_caption_set(case['set'])
     want = [flags_of_nodes(c['nodes'], case['set'].get('styles'))[0] for c in case['set']['langs'][0]['captions']]
     for cap in want:
